@@ -160,13 +160,50 @@ static void run_lengths(uint64_t idx, pv_rng* rng) {
     pv_api_free(s);
 }
 
-static void init2(void) { init(); g_out = malloc(POLYSEED_STR_SIZE); g_img = malloc(32); }
+/* ---------------------------------------------------------------- fresh vectors of the Python spec, generated for this run (PV_EXTRA_VECTORS):
+ * the library is compared with the second, independent statement of the format directly, without the C model in between */
+static char** g_vec; static size_t g_nvec;
+static void load_extra_vectors(void) {
+    const char* path = getenv("PV_EXTRA_VECTORS");
+    if (!path) return;
+    FILE* f = fopen(path, "rb"); if (!f) pv_fatal("C03: cannot open %s", path);
+    fseek(f, 0, SEEK_END); long n = ftell(f); fseek(f, 0, SEEK_SET);
+    char* b = pv_xmalloc((size_t)n + 1); if (fread(b, 1, (size_t)n, f) != (size_t)n) pv_fatal("C03: short read"); b[n] = 0; fclose(f);
+    size_t cap = 1024; g_vec = pv_xmalloc(cap * sizeof *g_vec);
+    for (char* line = strtok(b, "\n"); line; line = strtok(NULL, "\n")) { if (line[0] == '#') continue; if (g_nvec == cap) { cap *= 2; g_vec = realloc(g_vec, cap * sizeof *g_vec); } g_vec[g_nvec++] = line; }
+}
+static uint64_t n_pyvec(void) { return g_nvec; }
+static void run_pyvec(uint64_t idx, pv_rng* rng) {
+    (void)rng;
+    char* line = pv_exact_str(g_vec[idx]); char* f[11]; int k = 0; char* p = line;
+    while (k < 11) { f[k++] = p; char* q = strchr(p, '\t'); if (!q) break; *q = 0; p = q + 1; }
+    if (k != 11) { free(line); return; }
+    pv_mlang* L = pv_lang_by_name(f[0]);
+    uint8_t img[32], salt[32], pw[32];
+    if (!L || !L->lib || pv_unhex(f[7], img, 32) != 32 || pv_unhex(f[8], salt, 32) != 32 || pv_unhex(f[9], pw, 32) != 32) { free(line); return; }
+    unsigned features = (unsigned)atoi(f[3]), coin = (unsigned)atoi(f[4]);
+    uint8_t* ib = malloc(32); memcpy(ib, img, 32);
+    polyseed_data* s = NULL; int st = pv_api_load(ib, &s);
+    PV_COUNT("evaluations", 1);
+    if (st != (pv_m_supported(features, 7) ? POLYSEED_OK : POLYSEED_ERR_UNSUPPORTED)) pv_violation("C03/python-spec/image", "image %s of the Python spec -> %s", f[7], pv_status_name(st));
+    if (st == POLYSEED_OK) {
+        size_t n = pv_api_encode(s, L->lib, coin, g_out);
+        if (strcmp(g_out, f[5]) || n != strlen(f[5])) pv_violation("C03/python-spec/phrase", "%s coin %u: library '%s', Python spec '%s'", L->name_en, coin, pv_esc(g_out), pv_esc(f[5]));
+        else { PV_COUNT("pyvec.phrases_equal_to_python_spec", 1); PV_DISTINCT("nontrivial", pv_mix(pv_hash(img, 32, 5), pv_mix(coin, pv_hash_str(L->key)))); }
+        uint8_t* key = malloc(32); pv_api_keygen(s, coin, 32, key); free(key);
+        if (pv_w->nkdf != 1 || pv_w->kdf[0].saltlen != 32 || memcmp(pv_w->kdf[0].salt, salt, 32) || pv_w->kdf[0].pwlen != 32 || memcmp(pv_w->kdf[0].pw, pw, 32)) pv_violation("C03/python-spec/kdf-inputs", "KDF inputs differ from the Python spec for image %s coin %u", f[7], coin);
+        pv_api_free(s);
+    }
+    free(ib); free(line);
+}
+
+static void init2(void) { init(); g_out = malloc(POLYSEED_STR_SIZE); g_img = malloc(32); load_extra_vectors(); }
 static void fini(void) { pv_set_flag("exhaustive.single_bit_seeds_and_pairs", true); }
 
 int main(int argc, char** argv) {
     static const pv_section secs[] = {
         { "bits", n_bits, run_bits }, { "reserved", n_reserved, run_reserved },
-        { "random", n_random, run_random }, { "purity", n_purity, run_purity }, { "lengths", n_lengths, run_lengths },
+        { "random", n_random, run_random }, { "purity", n_purity, run_purity }, { "lengths", n_lengths, run_lengths }, { "pyvectors", n_pyvec, run_pyvec },
     };
-    return pv_main(argc, argv, "C03", secs, 5, init2, fini);
+    return pv_main(argc, argv, "C03", secs, 6, init2, fini);
 }
